@@ -151,6 +151,9 @@ impl Consist {
         };
         let _ = consist.n_res_equipped();
         consist.set_save_interval(save_interval);
+        // derived limit: keep it consistent from construction on (it is otherwise only set by
+        // `init` after loading and inside `solve_energy_consumption`)
+        consist.set_pwr_dyn_brake_max();
         consist
     }
 
@@ -424,6 +427,7 @@ impl Default for Consist {
         // ensure propagation to nested components
         consist.set_save_interval(Some(1));
         let _mass = consist.mass().unwrap();
+        consist.set_pwr_dyn_brake_max();
         consist
     }
 }
